@@ -261,8 +261,9 @@ Proof.
         + intros _. unfold cur. rewrite scale_down_length. lia. }
     rewrite Hu. cbn [map]. f_equal.
     + unfold cur. apply scale_up_down; assumption.
-    + apply IH with (se := enc_after_row ri mpr psv se) (prev_e := cur); try assumption.
-      intros _. split; [reflexivity|]. unfold cur. rewrite scale_down_length. exact Hlen.
+    + rewrite Hf in Ha'.
+      apply IH with (se := enc_after_row ri mpr psv se) (prev_e := cur); [exact Hrest|exact Ha'| |exact Ht].
+      intros _. split; [reflexivity|]. unfold cur. rewrite scale_down_length. reflexivity.
 Qed.
 
 Lemma params_ok_spec psv prec pt : params_ok psv prec pt = true <-> (1 <= psv <= 7 /\ 0 <= pt < prec).
@@ -324,7 +325,7 @@ Proof.
   pose proof (diff_code_all d) as H. unfold diff_code_ok in H. unfold canon_diff, eqm16.
   rewrite <- (encode_diff_mod d). destruct (encode_diff (d mod 65536)) as [nb extra].
   rewrite !andb_true_iff in H. destruct H as [[[[[[[_ _] _] _] H] _] _] _].
-  apply Z.eqb_eq in H. rewrite H. rewrite Z.mod_mod by lia. reflexivity.
+  apply Z.eqb_eq in H. exact H.
 Qed.
 
 Theorem encode_diff_category d :
@@ -336,9 +337,8 @@ Proof.
   rewrite <- (encode_diff_mod d). destruct (encode_diff (d mod 65536)) as [nb extra] eqn:E.
   rewrite !andb_true_iff in H. destruct H as [[[[[[[H1 H2] H3] H4] H5] H6] H7] H8].
   cbn [fst snd]. rewrite Z.shiftl_1_l in H4.
-  repeat split; try lia.
-  - intros ->. cbn [Z.eqb Pos.eqb] in H8. lia.
-  - intros ->. reflexivity.
+  split; [lia|]. split; [lia|]. split; [lia|].
+  intros ->. cbn [Z.eqb Pos.eqb] in H8. split; [lia|reflexivity].
 Qed.
 
 (* whole pipeline of one component: differencing, category coding, decoding,
@@ -416,3 +416,47 @@ Section BitLevel.
     rewrite decode_encode_tok. rewrite IH. reflexivity.
   Qed.
 End BitLevel.
+
+(* ------------------------------------------------------------ non-vacuity *)
+Definition alt16 : list (list Z) := [[0; 65535; 0]; [65535; 0; 65535]; [0; 65535; 0]; [65535; 65535; 0]].
+
+Lemma alt16_rows_ok : rows_ok 16 3 alt16.
+Proof. unfold alt16, rows_ok, in_prec. repeat constructor; cbn; lia. Qed.
+
+(* every predictor, with and without a restart every row / every 2 rows *)
+Lemma alt16_roundtrip_computed :
+  forallb (fun psv => forallb (fun ri =>
+     match codec_component ri 3 psv 16 0 alt16 with
+     | Some out => if list_eq_dec (list_eq_dec Z.eq_dec) out alt16 then true else false
+     | None => false end) [0; 3; 6]) [1; 2; 3; 4; 5; 6; 7] = true.
+Proof. vm_compute. reflexivity. Qed.
+
+(* the differences of that image really leave the 16-bit range, so that the
+   modulo-2^16 reconstruction is exercised: predictor 4 on row 2 gives
+   65535 - (0 + 0 - 65535) = 131070 *)
+Lemma alt16_wide_difference :
+  enc_component 0 3 4 16 0 alt16 =
+  Some [[-32768; 65535; -65535]; [65535; -131070; 131070]; [-65535; 131070; -131070]; [65535; -65535; 0]].
+Proof. vm_compute. reflexivity. Qed.
+
+Lemma wrap_needed : canon_diff 131070 = -2 /\ canon_diff 131070 + (0 + 0 - 65535) <> 65535
+                    /\ and16 (canon_diff 131070 + (0 + 0 - 65535)) = 65535.
+Proof. vm_compute. repeat split; discriminate. Qed.
+
+Lemma category16_example : encode_diff 32768 = (16, 32767) /\ encode_diff (-32768) = (16, 32767)
+  /\ canon_diff (-32768) = 32768 /\ encode_diff (-1) = (1, 0) /\ encode_diff 65535 = (1, 0).
+Proof. vm_compute. repeat split. Qed.
+
+(* point transform on 12-bit data *)
+Lemma pt_example :
+  codec_component 2 2 7 12 3 [[4095; 1]; [8; 2049]] = Some [[4088; 0]; [8; 2048]].
+Proof. vm_compute. reflexivity. Qed.
+
+(* a concrete prefix code for the categories: 5 bits, fixed length *)
+Definition fixed_code (tbl s : Z) : list bool := bits_of 5 s.
+Definition fixed_dec (tbl : Z) (bs : list bool) : option (Z * list bool) := get_bits 5 0 bs.
+Lemma fixed_code_ok tbl s rest : 0 <= s <= 16 -> fixed_dec tbl (fixed_code tbl s ++ rest) = Some (s, rest).
+Proof.
+  intros H. unfold fixed_dec, fixed_code. rewrite get_bits_of by lia.
+  change (2 ^ Z.of_nat 5) with 32. rewrite Z.mod_small by lia. reflexivity.
+Qed.
